@@ -258,3 +258,84 @@ def route_signal_arg_sets():
         rn._scenario = {"blocked": blocked, "existing": existing, "free": ground == "free"}
         out.append({"self": rn, "source_pos": src, "sink_pos": snk, "signal_name": "signal-S", "wire_color": "red", "network_id": 7})
     return out
+
+
+# =================================================================================================
+# LayoutPlanner.plan_layout — the retry loop (C08: "every placement the layout stage may settle on: optimal, time-limited, retried or
+# fallback"): every attempt starts from a fresh state and runs the phases in order (entities, pole grid, positions, trim, grid, connections);
+# the loop stops at the FIRST attempt whose routing succeeded; when every one of the max_layout_retries + 1 attempts failed, ONE error is
+# recorded (the compile fails: no blueprint with unroutable wires is handed on silently); the plan returned is the last attempt's.
+# max_layout_retries = 2 (the shipped default is read from the constructor; bounded here), routing outcomes symbolic.
+# =================================================================================================
+PL = {}
+LPQ = "dsl_compiler/src/layout/planner.py::LayoutPlanner."
+
+
+def _pl_reset(a):
+    PL.clear()
+    return True
+
+
+def _pl_phase(name, ret=None):
+    def eff(ex, a):
+        PL.setdefault("trace", []).append(name)
+        return ret(ex, a) if ret else None
+    return eff
+
+
+def _pl_route(ex, a):
+    k = sum(1 for x in PL.get("trace", []) if x == "connections")
+    PL.setdefault("trace", []).append("connections")
+    from pyvc.ghost import ghost
+    return ghost(ex.args_ns.self, f"routing_ok_{k}", ty.Bool)
+
+
+def _pl_post(a, res):
+    trace = PL.get("trace", [])
+    attempt = ["reset", "entities", "poles", "positions", "trim", "grid", "connections"]
+    if not trace or trace[0] != "analysis" or trace[-2:] != ["grid", "metadata"]:
+        return False
+    body = trace[1:-2]
+    if len(body) % len(attempt) != 0 or any(body[i] != attempt[i % len(attempt)] for i in range(len(body))):
+        return False   # every attempt: fresh state, then the phases in order
+    n = len(body) // len(attempt)
+    oks = [a.self._fields.get(f"@routing_ok_{k}") for k in range(n)]
+    if any(o is None for o in oks) or n > 3:
+        return False
+    errs = len(PL.get("errors", []))
+    cs = [Not(o) for o in oks[:-1]]                      # an attempt is only repeated after a failure
+    if n < 3:
+        cs += [oks[-1], z3.BoolVal(errs == 0)]           # stopped early: the last attempt succeeded, nothing is reported as an error
+    else:
+        cs.append(z3.If(oks[-1], z3.BoolVal(errs == 0), z3.BoolVal(errs == 1)))   # the last allowed attempt: success, or ONE error
+    cs.append(z3.BoolVal(res is a.self.layout_plan))
+    return And(*cs)
+
+
+_PLC = lambda name, key: Contract(qualname=LPQ + name, params={"self": ty.TOpaque("s"), "args": ty.TOpaque("a"), "kwargs": ty.TOpaque("k")}, effect=_pl_phase(key), verify=False,  # noqa: E731
+                                  note="a layout phase (recorded)")
+CONTRACTS.append(Contract(
+    qualname=LPQ + "plan_layout",
+    params={"self": ty.TObj("LayoutPlanner", only=("LayoutPlanner",), ftypes=(("max_layout_retries", ty.TConcrete(2)),)), "ir_operations": ty.TOpaque("ir"),
+            "blueprint_label": ty.Str, "blueprint_description": ty.Str},
+    requires=[("(reset)", _pl_reset)],
+    ensures=[("fresh state and all phases in order per attempt; stops at the first routed attempt; all attempts failed: ONE error; the last attempt's plan is returned", _pl_post)],
+    uses={"LayoutPlanner._setup_signal_analysis": Contract(qualname=LPQ + "_setup_signal_analysis", params={"self": ty.TOpaque("s"), "ir_operations": ty.TOpaque("i")}, effect=_pl_phase("analysis"),
+                                                           verify=False, note="signal analysis (contracts.c13 / c20b)"),
+          "LayoutPlanner._reset_layout_state": Contract(qualname=LPQ + "_reset_layout_state", params={"self": ty.TOpaque("s")}, effect=_pl_phase("reset"), verify=False, note="fresh plan, grid and planner"),
+          "LayoutPlanner._create_entities": Contract(qualname=LPQ + "_create_entities", params={"self": ty.TOpaque("s"), "ir_operations": ty.TOpaque("i")}, effect=_pl_phase("entities"), verify=False,
+                                                     note="placements of the IR nodes (contracts.c07b, cdispatch)"),
+          "LayoutPlanner._add_power_pole_grid": Contract(qualname=LPQ + "_add_power_pole_grid", params={"self": ty.TOpaque("s")}, effect=_pl_phase("poles"), verify=False, note="pole grid (C18: geometry, bounded)"),
+          "LayoutPlanner._optimize_positions": Contract(qualname=LPQ + "_optimize_positions", params={"self": ty.TOpaque("s"), "time_multiplier": ty.TOpaque("t")}, defaults={"time_multiplier": 1.0},
+                                                        effect=_pl_phase("positions"), verify=False, note="CP-SAT positions (C08: geometry + adversary, bounded)"),
+          "LayoutPlanner._trim_power_poles": Contract(qualname=LPQ + "_trim_power_poles", params={"self": ty.TOpaque("s")}, effect=_pl_phase("trim"), verify=False, note="proved in contracts.c09"),
+          "LayoutPlanner._update_tile_grid": Contract(qualname=LPQ + "_update_tile_grid", params={"self": ty.TOpaque("s")}, effect=_pl_phase("grid"), verify=False, note="occupancy grid from the placements (proved above)"),
+          "LayoutPlanner._plan_connections": Contract(qualname=LPQ + "_plan_connections", params={"self": ty.TOpaque("s")}, effect=_pl_route, verify=False,
+                                                      note="wires and relays; False when a connection could not be routed"),
+          "LayoutPlanner._set_metadata": Contract(qualname=LPQ + "_set_metadata", params={"self": ty.TOpaque("s"), "blueprint_label": ty.TOpaque("l"), "blueprint_description": ty.TOpaque("d")},
+                                                  effect=_pl_phase("metadata"), verify=False, note="label and description"),
+          "opaque.error": Contract(qualname="dsl_compiler/src/common/diagnostics.py::ProgramDiagnostics.error", params={"args": ty.TOpaque("a"), "kwargs": ty.TOpaque("k")},
+                                   effect=lambda ex, a: PL.setdefault("errors", []).append(a.args), verify=False, note="proved in contracts.c14: the error is counted"),
+          "opaque.warning": "skip"},
+    dynamic_types={"self": {"diagnostics": ty.TOpaque("diag"), "layout_plan": ty.TObj("LayoutPlan", only=("LayoutPlan",))}},
+    properties=("C08", "C09"), min_obligations=3, no_replay=True, note="max_layout_retries = 2"))
